@@ -187,6 +187,10 @@ def ge5(P, C):
            "absolute tolerance makes small-scale tables lose grid points that pointwise evaluation still returns", floor=3)
     fns = [("bsplinebasis", P.one("bsplinebasis", file_endswith="splineutil.c")), ("slicemultiply", P.one("slicemultiply", file_endswith="splineutil.c"))] + \
           [("grideval", g) for g in P.fns("grideval") if g.cls == ts.CLS and g.unit == "driver"][:1]
+    _no_absolute_threshold(C, "GE-5", fns, "entries below an absolute size are dropped, so the grid values of a table of small scale are not the values pointwise evaluation returns")
+
+
+def _no_absolute_threshold(C, rule, fns, consequence):
     for name, f in fns:
         bad = []
         for i in f.walk():
@@ -203,9 +207,27 @@ def ge5(P, C):
             cal = n.get("callee")
             if cal and cal["name"] in ("cholmod_l_drop", "cholmod_drop"):
                 bad.append((i, "%s(%s, ...)" % (cal["name"], f.render(f.args(i)[0]))))
-        C.ob("GE-5", name, "no-absolute-threshold", not bad, f.loc(bad[0][0]) if bad else f.where(),
-             "no absolute constant, no thresholding call" if not bad else
-             "%s: entries below an absolute size are dropped, so the grid values of a table of small scale are not the values pointwise evaluation returns" % bad[0][1])
+        C.ob(rule, name, "no-absolute-threshold", not bad, f.loc(bad[0][0]) if bad else f.where(),
+             "no absolute constant, no thresholding call" if not bad else "%s: %s" % (bad[0][1], consequence))
+
+
+def gw8(P, C):
+    """GW-8: the assembly of the normal equations is homogeneous in the weights and in the data."""
+    C.rule("GW-8", "the unconstrained fit scales with its input: multiplying all weights by s leaves the minimiser unchanged (for zero smoothing) and "
+           "multiplying the data by s multiplies it by s. The routines that assemble and solve the system — glamfit_complex, bsplinebasis, box, "
+           "slicemultiply, flatten_ndarray_to_sparse, kronecker_product, calc_penalty, add_penalty_term, divided_diffs, cholesky_solve — "
+           "contain no floating constant other than 0 and +-1, compare floating values only with 0 or with each other and call none of "
+           "CHOLMOD's thresholding routines: an absolute cutoff (cholmod_l_drop(DBL_EPSILON, ...)) removes entries of F and R once weights "
+           "or data are small in absolute terms, and the result is no longer the weighted least-squares minimiser", floor=8)
+    names = ("glamfit_complex", "bsplinebasis", "box", "slicemultiply", "flatten_ndarray_to_sparse", "kronecker_product", "calc_penalty",
+             "add_penalty_term", "divided_diffs", "cholesky_solve")
+    fns = []
+    for nm in names:
+        gs = [g for g in P.fns(nm) if g.unit.startswith("fitter/")]
+        if not gs:
+            raise core.AnalysisBroken("GW-8: %s not found in the fitter" % nm)
+        fns.append((nm, gs[0]))
+    _no_absolute_threshold(C, "GW-8", fns, "entries of the normal matrix / right-hand side below an absolute size are dropped; with small weights or data the fit is not the weighted least-squares minimiser any more")
 
 
 def ge6(P, C):
